@@ -246,9 +246,14 @@ def load_once(tm, entry, by_path, ftype, data, tmpdir, idx):
     outcome = "none"
     exc_name = ""
     t0 = time.time()
+    c0 = time.process_time()
     result = None
+    # the bound is on CPU time (a hang is a busy loop; a starved machine must not look like one), with a
+    # generous wall-clock backstop for a loader that would block without computing
+    signal.signal(signal.SIGPROF, _on_alarm)
     signal.signal(signal.SIGALRM, _on_alarm)
-    signal.setitimer(signal.ITIMER_REAL, bound)
+    signal.setitimer(signal.ITIMER_PROF, bound)
+    signal.setitimer(signal.ITIMER_REAL, bound * 30)
     try:
         try:
             if by_path:
@@ -267,10 +272,11 @@ def load_once(tm, entry, by_path, ftype, data, tmpdir, idx):
         except BaseException as e:  # SystemExit, KeyboardInterrupt, GeneratorExit ...
             outcome, exc_name = "fatal", type(e).__name__
     finally:
+        signal.setitimer(signal.ITIMER_PROF, 0)
         signal.setitimer(signal.ITIMER_REAL, 0)
         builtins.open = real_open
         io.open = real_open
-    elapsed = time.time() - t0
+    elapsed = time.process_time() - c0
     closed = all(fo.closed for fo in opened)
     fds1 = len(os.listdir("/proc/self/fd"))
     fd_leak = fds1 > fds0 and not closed      # result still referenced here: an fd held by it is a leak of the loader
@@ -307,7 +313,12 @@ def worker(chunk_path):
         # progress marker so that a hard crash can be attributed to the job that was running
         with open(chunk_path + ".cur", "w") as f:
             f.write(str(k))
-        r = load_once(tm, job["entry"], job["bypath"], job["ftype"], data, tmpdir, k)
+        try:
+            r = load_once(tm, job["entry"], job["bypath"], job["ftype"], data, tmpdir, k)
+        except Exception as e:   # an error of the harness itself, not of the loader
+            with open(chunk_path + ".err", "w") as f:
+                f.write("%s: %s" % (type(e).__name__, e))
+            return 3
         r["id"] = job["id"]
         out.append(r)
     with open(done_path, "w") as f:
@@ -352,7 +363,11 @@ def run_jobs(jobs, name):
             if os.path.exists(p + ".out"):
                 with open(p + ".out") as f:
                     results += json.load(f)
+            elif os.path.exists(p + ".err"):
+                raise MachineryError("load worker failed: " + open(p + ".err").read())
             else:
+                if p.count(".r") > 6:
+                    raise MachineryError("load worker keeps dying on chunk " + p)
                 # hard crash: the job marked in .cur brought the interpreter down; re-run the others
                 cur = 0
                 try:
@@ -390,9 +405,9 @@ def main(argv):
         cov["tlc_runs"].append({"run": name, "distinct": r.distinct, "generated": r.generated, "wall_s": round(r.wall, 1)})
 
     d = tlc.prepare("c20/mc")
-    r = tlc.must(tlc.run(d, "Loader", LIFE_CFG.format(closes="TRUE"), timeout=600), "lifecycle")
+    r = tlc.must(tlc.run(d, "Loader", LIFE_CFG.format(closes="TRUE"), timeout=1500), "lifecycle")
     note("life-cycle: HandleClosedAtEnd, OutcomeOrdinary, Terminates (fair)", r)
-    rr = tlc.run(d, "Loader", LIFE_CFG.format(closes="FALSE"), timeout=600)
+    rr = tlc.run(d, "Loader", LIFE_CFG.format(closes="FALSE"), timeout=1500)
     if rr.violated != "HandleClosedAtEnd":
         raise MachineryError("spec self-test: an entry point without finally was not reported")
     cov["spec_selftest"] = "entry point without finally -> HandleClosedAtEnd violated, as expected"
@@ -486,7 +501,7 @@ def main(argv):
                 "max_ms": max(r_["ms"] for r_ in results), "run_wall_s": round(time.time() - t0, 1),
                 "samples": [desc[len(desc) // 3], desc[len(desc) // 2], desc[-1]]})
     return V.finish("fault_enumeration", cov, assumptions=[
-        "time bound 10 s + 1 ms per byte; address space limited to 4 GB per loading process",
+        "time bound 10 s + 1 ms per byte of CPU time (wall-clock backstop 30x); address space limited to 4 GB per loading process",
         "formats limited to those with an exporter in this environment (seed files are fresh exports of small geometry)",
     ])
 
